@@ -18,6 +18,9 @@ use crate::types::WitnessId;
 ///              consumed adds.
 pub(super) struct MulAddFusion<F> {
     use_counts: HashMap<WitnessId, usize>,
+    /// Number of ops that write each witness (more than one when `connect` aliases
+    /// several results, a public input or a constant onto the same slot).
+    write_counts: HashMap<WitnessId, usize>,
     defs: HashMap<WitnessId, IndexedDef<F>>,
     backwards_computed: HashMap<WitnessId, usize>,
 }
@@ -27,12 +30,21 @@ impl<F: Field> MulAddFusion<F> {
     pub(super) fn new(ops: &[Op<F>]) -> Self {
         let mut fusion = Self {
             use_counts: HashMap::new(),
+            write_counts: HashMap::new(),
             defs: HashMap::with_capacity(ops.len()),
             backwards_computed: HashMap::new(),
         };
         fusion.scan_use_counts(ops);
         fusion.scan_defs(ops);
         fusion
+    }
+
+    /// Registers witnesses that are written outside the op list (private inputs).
+    pub(super) fn with_external_writes(mut self, ids: &[WitnessId]) -> Self {
+        for id in ids {
+            *self.write_counts.entry(*id).or_default() += 1;
+        }
+        self
     }
 
     /// Runs the three-phase fusion and returns the rewritten op list.
@@ -52,6 +64,10 @@ impl<F: Field> MulAddFusion<F> {
 
     fn uses(&self, id: &WitnessId) -> usize {
         self.use_counts.get(id).copied().unwrap_or(0)
+    }
+
+    fn writes(&self, id: &WitnessId) -> usize {
+        self.write_counts.get(id).copied().unwrap_or(0)
     }
 
     fn is_backwards(&self, idx: usize, out: &WitnessId) -> bool {
@@ -100,6 +116,21 @@ impl<F: Field> MulAddFusion<F> {
     fn scan_defs(&mut self, ops: &[Op<F>]) {
         for (idx, op) in ops.iter().enumerate() {
             match op {
+                Op::Const { out, .. } | Op::Public { out, .. } | Op::Alu { out, .. } => {
+                    *self.write_counts.entry(*out).or_default() += 1;
+                }
+                Op::NonPrimitiveOpWithExecutor { outputs, .. } => {
+                    for &id in outputs.iter().flatten() {
+                        *self.write_counts.entry(id).or_default() += 1;
+                    }
+                }
+                Op::Hint { outputs, .. } => {
+                    for &id in outputs {
+                        *self.write_counts.entry(id).or_default() += 1;
+                    }
+                }
+            }
+            match op {
                 Op::Const { out, val } => {
                     // Always insert consts (they win over any prior def).
                     self.defs
@@ -147,6 +178,7 @@ impl<F: Field> MulAddFusion<F> {
     /// encoded as add). Record that `computed` is produced at `idx`.
     fn track_backwards_op(&mut self, idx: usize, out: WitnessId, computed: WitnessId) {
         if self.is_backwards(idx, &out) {
+            *self.write_counts.entry(computed).or_default() += 1;
             self.backwards_computed.insert(computed, idx);
             self.insert_def(computed, idx, OpDef::Other);
         }
@@ -200,6 +232,14 @@ impl<F: Field> MulAddFusion<F> {
 
         // Single-use, non-const mul
         if self.uses(&mul_result) != 1 || self.is_const(&mul_result) {
+            return None;
+        }
+
+        // The product must be the only writer of its slot. If the slot is aliased to
+        // another value, the mul is the equality constraint between the two and fusing it
+        // away would leave that relation to the runner only (or, when the mul is really a
+        // backwards-running division, reorder it before its inputs).
+        if self.writes(&mul_result) != 1 {
             return None;
         }
 
